@@ -23,6 +23,10 @@ pub use reconstruction::reconstruct;
 pub use update::update;
 #[cfg(feature = "verif-hooks")]
 pub(crate) use update::verif_branch;
+#[cfg(feature = "verif-hooks")]
+pub(crate) use update::verif_leaf;
+#[cfg(feature = "verif-hooks")]
+pub(crate) use update::verif_leaf_constants;
 
 /// Do a partial lookup of the key in the beatree.
 ///
